@@ -29,7 +29,7 @@ impl Check for C02 {
         vec!["e57ref is a correct reading of ASTM E2807; bounded by the preflight against 12 libE57Format-written files bundled with the repository".into()]
     }
     fn budget(t: Tier) -> usize {
-        t.pick(3000, 60_000)
+        t.pick(15_000, 300_000)
     }
     fn preflight() -> Result<(), String> {
         crate::preflight::decoder_preflight()
